@@ -508,7 +508,23 @@ func (f *frame) havocCall(callee *ssa.Function, sig *types.Signature, argVals []
 	for i := 0; i < n; i++ {
 		rs[i] = f.freshOf("ret", sig.Results().At(i).Type())
 	}
+	if callee != nil && n == 1 && nonNilCtors[callee.String()] {
+		// library constructors that never return nil (assumed library contract)
+		vc.trust(callee.String() + " returns a non-nil value")
+		if rs[0].Sort == SIface {
+			vc.assume(mkNot(mkEq(ifTyp(rs[0]), i64(0))))
+			vc.assume(mkNot(mkEq(ifVal(rs[0]), i64(0))))
+		} else if rs[0].Sort == SBV64 {
+			vc.assume(mkNot(mkEq(rs[0], i64(0))))
+		}
+	}
 	return rs
+}
+
+// nonNilCtors: library constructors whose single result is never nil.
+var nonNilCtors = map[string]bool{
+	"crypto/hmac.New": true, "crypto/sha256.New": true, "crypto/sha1.New": true, "crypto/sha512.New": true, "crypto/sha512.New384": true, "crypto/md5.New": true,
+	"encoding/gob.NewEncoder": true, "encoding/gob.NewDecoder": true,
 }
 
 // wholeMods drops the per-object refinement: "@k+off$heap" becomes "heap".
@@ -659,9 +675,8 @@ func (f *frame) builtin(b *ssa.Builtin, c *ssa.CallCommon, pos token.Pos) []Term
 				lt = ult(v, r)
 			}
 			if b.Name() == "max" {
-				lt = mkNot(mkOr(lt, mkEq(v, r)))
-				r = mkIte(lt, r, v)
-				// max: keep r if r > v
+				gt := mkNot(mkOr(lt, mkEq(v, r))) // v > r
+				r = mkIte(gt, v, r)
 				continue
 			}
 			r = mkIte(lt, v, r)
